@@ -45,6 +45,7 @@ inductive Atom
   | minDimLeMax (o f : String)              -- `np.min(o.shape) <= f.max()`  (the maximum of `f` is `(env f).ival`)
   | lenGeDimAt (w f ax : String)            -- negation of `len(w) < f.shape[ax]`
   | whenArr (x : String) (inner : Atom)     -- `inner`, met only on a path every ndarray `x` takes
+  | intGe (a : String) (c : Int)            -- `a >= c`
 deriving Repr, Inhabited
 
 def isArr (d : Desc) : Bool := d.kind == 1
@@ -86,6 +87,7 @@ def Atom.rejects (env : Env) : Atom → Bool
         decide ((env ax).ival.toNat < (env f).shape.length) &&
         decide ((env w).shape.getD 0 0 < (env f).shape.getD (env ax).ival.toNat 0))
   | .whenArr x inner => isArr (env x) && inner.rejects env
+  | .intGe a c => isInt (env a) && decide ((env a).ival ≥ c)
 
 /-- all guards pass (no atom raises) -/
 def passes (gs : List Atom) (env : Env) : Bool := gs.all (fun g => !g.rejects env)
